@@ -15,6 +15,7 @@ import (
 	"os"
 	"runtime/debug"
 	"runtime/pprof"
+	"strings"
 	"sync"
 	"sync/atomic"
 	"time"
@@ -140,6 +141,21 @@ func buildSweeps(thorough bool, r *report.R) []sweep {
 			payloads = append(payloads, Case{Payload: "value", Media: m, Value: id})
 		}
 	}
+	// spellings of the chosen media type: parameters, compact and spaced, TAB as optional whitespace, case variants
+	spell := func(m string) []string {
+		return []string{m + "; charset=utf-8", m + ";charset=utf-8", m + ";\tcharset=utf-8", m + " ; charset=\"utf-8\"", strings.ToUpper(m[:1]) + m[1:], strings.ToUpper(m)}
+	}
+	var spelled []string
+	for _, m := range []string{runtime.JSONMime, runtime.TextMime, runtime.DefaultMime} {
+		for _, sp := range spell(m) {
+			spelled = append(spelled, sp)
+			for _, id := range []string{"struct", "string", "bytes", "edgestring"} {
+				payloads = append(payloads, Case{Payload: "value", Media: sp, Value: id})
+			}
+			payloads = append(payloads, Case{Payload: "reader", Media: sp, Reader: &ReaderSpec{Flavor: "plain", Policy: "full", Kind: "utf8", Len: 600}},
+				Case{Payload: "reader", Media: sp, Reader: &ReaderSpec{Flavor: "closer", Policy: "full", Kind: "bin", Len: 600}})
+		}
+	}
 	rlens := []int{0, 1, 512, 4096, 32769, 70000}
 	rkinds := []string{"ascii", "bin"}
 	if thorough {
@@ -163,16 +179,17 @@ func buildSweeps(thorough bool, r *report.R) []sweep {
 			}
 		}
 	}
-	r.Set("sweepA_payloads", map[string]any{"total": len(payloads), "value_media": producerMedias, "value_ids": valueIDs, "reader_media": medias.readers, "reader_flavors": flavors, "reader_lengths": rlens, "reader_kinds": rkinds})
+	r.Set("sweepA_payloads", map[string]any{"total": len(payloads), "value_media": producerMedias, "value_ids": valueIDs, "media_spellings": spelled, "reader_media": medias.readers, "reader_flavors": flavors, "reader_lengths": rlens, "reader_kinds": rkinds})
 	sweeps = append(sweeps, sweep{"A:nil+value+reader", []int{len(payloads), len(auths), len(obsA)}, func(i []int) (Case, bool) {
 		return withAO(payloads[i[0]], auths[i[1]], obsA[i[2]]), true
 	}})
 
 	// ---- B: form fields only, URL-encoded ----
-	names := s("a", "b c", "k&=+%", "é日", "")
-	atoms := s("", "a", " ", "+", "%", "%2F", "/", "&", "=", "a&b=c", "é", "\x80")
+	names := s("a", "b c", "k&=+%", "é日", "", "A", "ab", "a.b-c[0]", "\U0001F600\"\\\xff")
+	atoms := s("", "a", " ", "+", "%", "%2F", "/", "&", "=", "a&b=c", "é", "\x80", "\t", "\n", "\x00", "%%s", "\U0001F600\"\\", "\ufeff", ";,")
 	if thorough {
-		atoms = s("", "a", " ", "+", "%", "%2F", "%25", "/", "?", "#", "&", "=", "a&b=c", ";", "é", "日本", "\x80", "\r\n", "a b", "\x00")
+		atoms = s("", "a", " ", "+", "%", "%2F", "%25", "%2f", "/", "?", "#", "&", "=", "a&b=c", ";", "é", "日本", "\x80", "\r\n", "a b", "\x00",
+			"\t", "\r", "\n", "\x7f", "%%", "%s", ",", "{}", "..", "*", ":", "\"", "\\", "\U0001F600", "\xff\"", "\ufeff", "\u2028")
 	}
 	var shapesB [][]FormField
 	for _, n := range names {
@@ -184,16 +201,30 @@ func buildSweeps(thorough bool, r *report.R) []sweep {
 			}
 		}
 	}
-	for i, n := range names {
-		for _, m := range names[i+1:] {
-			for _, v := range atoms {
-				for _, w := range atoms {
-					shapesB = append(shapesB, []FormField{{n, []S{v}}, {m, []S{w}}})
-				}
+	// two fields: every pair of the first five names, plus names differing only in case, a name that
+	// is a prefix of the other, a name with '.', '-', '[', ']' and the name mixing runes that need escaping
+	var pairsB [][2]S
+	for i, n := range names[:5] {
+		for _, m := range names[i+1 : 5] {
+			pairsB = append(pairsB, [2]S{n, m})
+		}
+	}
+	pairsB = append(pairsB, [2]S{"a", "A"}, [2]S{"a", "ab"}, [2]S{"A", "ab"}, [2]S{"a", names[7]}, [2]S{"a", names[8]})
+	for _, pr := range pairsB {
+		for _, v := range atoms {
+			for _, w := range atoms {
+				shapesB = append(shapesB, []FormField{{pr[0], []S{v}}, {pr[1], []S{w}}})
 			}
 		}
 	}
+	// the URL-encoded media type in the spellings specifications use (parameters, no space, TAB)
 	mediasB := []string{runtime.URLencodedFormMime, runtime.JSONMime, runtime.TextMime}
+	mediasBspelled := []string{runtime.URLencodedFormMime + "; charset=UTF-8", runtime.URLencodedFormMime + ";charset=utf-8", runtime.URLencodedFormMime + ";\tcharset=utf-8"}
+	shapesBsmall := [][]FormField{{{"a", s("v")}}, {{"a", s("", "\U0001F600\"\\")}, {"A", s("%s")}}}
+	r.Set("sweepB_media_spellings", mediasBspelled)
+	sweeps = append(sweeps, sweep{"B2:urlencoded-media-spellings", []int{len(shapesBsmall), len(mediasBspelled), len(auths), len(obs)}, func(i []int) (Case, bool) {
+		return withAO(Case{Payload: "form", Media: mediasBspelled[i[1]], Form: shapesBsmall[i[0]]}, auths[i[2]], obs[i[3]]), true
+	}})
 	r.Set("sweepB_urlencoded", map[string]any{"field_names": names, "value_atoms": atoms, "shapes": len(shapesB), "media": mediasB})
 	sweeps = append(sweeps, sweep{"B:urlencoded-form", []int{len(shapesB), len(mediasB), len(auths), len(obs)}, func(i []int) (Case, bool) {
 		return withAO(Case{Payload: "form", Media: mediasB[i[1]], Form: shapesB[i[0]]}, auths[i[2]], obs[i[3]]), true
@@ -281,6 +312,65 @@ func buildSweeps(thorough bool, r *report.R) []sweep {
 			Form:  []FormField{{fnames[i[0]], []S{"v"}}},
 			Files: []FileField{{fnames[i[0]], []FileSpec{f}}}}
 		return withAO(c, authsN[i[5]], obs[i[6]]), true
+	}})
+
+	// ---- C4: edge values in names and values (reduced other axes) ----
+	long300 := strings.Repeat("n", 300)
+	edgeNames := s(
+		"r\u00e9\"sum\u00e9", "\u65e5\u672c\\\u8a9e", "\U0001F600\"x", "\U0001F600.txt", // non-ASCII (incl. beyond the BMP) with and without quote/backslash
+		"\xff\xfe", "\x80\"", "\xc3\\(", // invalid UTF-8 alone and together with characters that need escaping
+		"\ufeffbom", "a\u2028b", "a\tb", // BOM, line separator, TAB (NUL, DEL, CR, LF have no representation in a header field value, RFC 7230: outside the domain)
+		" ", " lead", "trail ", // single space, leading / trailing space
+		"%", "%%", "%s", "%41", "+", "&=", ";", ",", "{}", "..", "*", ":", "#?", "a/b\\c", // syntax of the surrounding formats
+		"a.b-c[0]", "F", "fx", long300) // odd but legal shapes, case variant / prefix of the ordinary name, long
+	edgeFieldNames := append(append([]S{}, edgeNames...), "") // the empty field name
+	var edgeBases []string
+	for _, n := range edgeNames {
+		if strings.Contains(string(n), "/") || n == ".." {
+			continue // not a base name ('/' separates; ".." is a directory)
+		}
+		edgeBases = append(edgeBases, string(n))
+	}
+	edgeDirs := []string{"", "d\u00e9\"/"}
+	authsN2 := []authMode{{"none", 0}, {"op", 1}}
+	r.Set("sweepC4_edge_names", map[string]any{"field_names": edgeFieldNames, "base_names": edgeBases, "dirs": edgeDirs})
+	// C4a: every edge field name with an ordinary file, every edge base name under an ordinary field (one at a time)
+	sweeps = append(sweeps, sweep{"C4a:edge-names-one-at-a-time", []int{len(edgeFieldNames) + len(edgeBases), len(edgeDirs), 2, len(authsN2), len(obs)}, func(i []int) (Case, bool) {
+		fn, base := S("f"), "a.txt"
+		if i[0] < len(edgeFieldNames) {
+			fn = edgeFieldNames[i[0]]
+		} else {
+			base = edgeBases[i[0]-len(edgeFieldNames)]
+		}
+		f := FileSpec{Dir: edgeDirs[i[1]], Base: base, Kind: "html", Len: 700, Src: "named-full"}
+		if i[2] == 1 {
+			f.Declared = "text/csv"
+		}
+		form := []FormField{{fn, s("v1")}, {fn + "b", s("v2")}} // a form field of the same name and one it is a prefix of
+		if up := S(strings.ToUpper(string(fn))); up != fn {
+			form = append(form, FormField{up, s("v3")}) // and one differing only in case
+		}
+		c := Case{Payload: "form", Media: runtime.MultipartFormMime, Form: form, Files: []FileField{{fn, []FileSpec{f}}}}
+		return withAO(c, authsN2[i[3]], obs[i[4]]), true
+	}})
+	// C4b: the escaping-relevant names crossed with each other (field name x base name)
+	crossNames := edgeNames[:10]
+	sweeps = append(sweeps, sweep{"C4b:edge-names-crossed", []int{len(crossNames), len(crossNames), len(authsN2), len(obs)}, func(i []int) (Case, bool) {
+		f := FileSpec{Base: string(crossNames[i[1]]), Kind: "png", Len: 600, Src: "named-full"}
+		c := Case{Payload: "form", Media: runtime.MultipartFormMime, Form: []FormField{{crossNames[i[0]], s("v")}}, Files: []FileField{{crossNames[i[0]], []FileSpec{f}}}}
+		return withAO(c, authsN2[i[2]], obs[i[3]]), true
+	}})
+	// C4c: edge values of multipart form fields (NUL, DEL, bare CR / LF, TAB, BOM, U+2028, invalid UTF-8, long, format look-alikes)
+	edgeVals := s("", " ", "\x00", "\t", "\r", "\n", "\r\n", "\n\r", "\x7f", "\xff", "\U0001F600\"\\", "\ufeff", "\u2028", "%s", "%%", "--", "--\r\n", "\r\n--", "a\r\nContent-Type: x/y\r\n\r\nb",
+		strings.Repeat("long value \u00e9 ", 5000))
+	mediasC4 := []string{runtime.MultipartFormMime, runtime.MultipartFormMime + "; charset=utf-8", runtime.MultipartFormMime + ";charset=utf-8"}
+	r.Set("sweepC4_edge_values", map[string]any{"values": len(edgeVals), "longest": len(edgeVals[len(edgeVals)-1]), "media": mediasC4})
+	sweeps = append(sweeps, sweep{"C4c:edge-field-values", []int{len(edgeVals), len(edgeVals), len(mediasC4), 2, len(authsN2), len(obs)}, func(i []int) (Case, bool) {
+		c := Case{Payload: "form", Media: mediasC4[i[2]], Form: []FormField{{"a", []S{edgeVals[i[0]], edgeVals[i[1]]}}}}
+		if i[3] == 1 {
+			c.Files = []FileField{{"f", []FileSpec{{Base: "a.txt", Kind: "ascii", Len: 600, Src: "named-full"}}}}
+		}
+		return withAO(c, authsN2[i[4]], obs[i[5]]), true
 	}})
 
 	// ---- D: environment. Sources with more capabilities than io.Reader, faults, real FIFOs ----
@@ -601,5 +691,5 @@ func main() {
 		pprof.StopCPUProfile()
 	}
 	exhaustive := !hung.Load()
-	r.Finish("ten full products plus the size ladder (A nil/value/reader payloads; B URL-encoded forms; C1 one-file contents; C2 form structures; C3 names; D1 upload sources and D2 reader payloads with Seek/ReadAt/WriteTo capabilities x honest/failing/lying x Close errors x a read fault at the k-th Read x chunking; D3 real FIFOs; E adaptive sequences of 2-3 multipart requests on one Runtime or fresh ones, each later request embedding the boundaries read from the earlier requests' Content-Type headers in file content / field value / file name; F every payload of A plus forms through Runtime.Submit with a capturing transport x non-reading / reading auth x Debug off/on; G size ladder, see size_ladder), each tuple executed once on Runtime.CreateHttpRequest and the sent body read to EOF; in D a delivered fault permits a failed build or send, every success is held to the exact-bytes oracle; non-trivial = a non-nil payload produced a request whose sent bytes were parsed/compared with the reference (distinct by construction: the enumerators never repeat a tuple, sweeps differ in payload kind, shape or source)", exhaustive)
+	r.Finish("ten full products plus the size ladder (A nil/value/reader payloads; B URL-encoded forms; C1 one-file contents; C2 form structures; C3 names; C4 edge values in names and field values; B2 spellings of the media type; D1 upload sources and D2 reader payloads with Seek/ReadAt/WriteTo capabilities x honest/failing/lying x Close errors x a read fault at the k-th Read x chunking; D3 real FIFOs; E adaptive sequences of 2-3 multipart requests on one Runtime or fresh ones, each later request embedding the boundaries read from the earlier requests' Content-Type headers in file content / field value / file name; F every payload of A plus forms through Runtime.Submit with a capturing transport x non-reading / reading auth x Debug off/on; G size ladder, see size_ladder), each tuple executed once on Runtime.CreateHttpRequest and the sent body read to EOF; in D a delivered fault permits a failed build or send, every success is held to the exact-bytes oracle; non-trivial = a non-nil payload produced a request whose sent bytes were parsed/compared with the reference (distinct by construction: the enumerators never repeat a tuple, sweeps differ in payload kind, shape or source)", exhaustive)
 }
